@@ -1044,6 +1044,180 @@ theorem no_upward_leak_history (W : View) :
       (ValidView_step σ W hW c) (fun c' h' => hall c' (List.mem_cons_of_mem _ h')) hu.2]
     exact step_untouched σ hwf hs W hW c hu.1
 
+/-! ## instance views: results of every method (the paths of fixes ee86233 and f6834ef) -/
+
+theorem get?_localItems (f : Frame) (hn : (f.map (·.1)).Nodup) (k : Key) :
+    AList.get? (localItems f) k = slotVal (AList.get? f k) := by
+  induction f with
+  | nil => rfl
+  | cons p r ih =>
+    obtain ⟨k0, s0⟩ := p
+    simp only [List.map_cons, List.nodup_cons] at hn
+    have ih' := ih hn.2
+    by_cases e : k0 = k
+    · subst e
+      have hr : AList.get? r k0 = none := (get?_eq_none_iff r k0).2 hn.1
+      cases s0 with
+      | val v => simp [localItems, AList.get?, slotVal]
+      | deleted =>
+        have : localItems ((k0, Slot.deleted) :: r) = localItems r := by simp [localItems]
+        rw [this, ih', hr]; simp [AList.get?, slotVal]
+    · cases s0 with
+      | val v =>
+        have : localItems ((k0, Slot.val v) :: r) = (k0, v) :: localItems r := by simp [localItems]
+        rw [this]; simp only [AList.get?, e, if_false, ih']
+      | deleted =>
+        have : localItems ((k0, Slot.deleted) :: r) = localItems r := by simp [localItems]
+        rw [this]; simp only [AList.get?, e, if_false, ih']
+
+theorem get?_filter_key (l : List (Key × Val)) (q : Key → Bool) (k : Key) :
+    AList.get? (l.filter (fun kv => q kv.1)) k = if q k then AList.get? l k else none := by
+  induction l with
+  | nil => simp
+  | cons p r ih =>
+    obtain ⟨k0, v0⟩ := p
+    simp only [List.filter_cons]
+    by_cases e : k0 = k
+    · subst e
+      by_cases hq : q k0 = true
+      · simp [hq, AList.get?]
+      · simp only [hq, Bool.false_eq_true, if_false, ih]
+    · by_cases hq : q k0 = true
+      · simp only [hq, if_true, AList.get?, e, if_false, ih]
+      · simp only [hq, Bool.false_eq_true, if_false, ih, AList.get?, e]
+
+def iGetOf (x : Option Slot) (t : Except Err Val) : Except Err Val :=
+  match x with
+  | some .deleted => .error .keyError
+  | some (.val v) => .ok v
+  | none => t
+
+theorem iGet_eq (σ : State) (f : Frame) (c : ClassId) (d : DescId) (k : Key) :
+    iGet σ f c d k = iGetOf (AList.get? f k) (tGet σ c d k) := rfl
+
+theorem iGetOf_aux (x : Option Slot) (t : Except Err Val) :
+    (slotVal x).or (if (!x.isSome) = true then t.toOption else none) = (iGetOf x t).toOption := by
+  cases x with
+  | none => simp [slotVal, iGetOf]
+  | some s => cases s <;> simp [slotVal, iGetOf, Except.toOption]
+
+/-- `items()` of an instance view lists exactly what `__getitem__` finds -/
+theorem get?_iItems (σ : State) (f : Frame) (c : ClassId) (d : DescId) (hn : (f.map (·.1)).Nodup) (k : Key) :
+    AList.get? (iItems σ f c d) k = (iGet σ f c d k).toOption := by
+  rw [iGet_eq]
+  unfold iItems
+  rw [get?_append, get?_localItems f hn, get?_filter_key (tItems σ c d) (fun k => !(AList.hasKey f k)) k,
+    get?_tItems]
+  simp only [AList.hasKey]
+  exact iGetOf_aux _ _
+
+theorem keys_localItems_sublist (f : Frame) : ((localItems f).map (·.1)).Sublist (f.map (·.1)) := by
+  induction f with
+  | nil => simp [localItems]
+  | cons p r ih =>
+    obtain ⟨k0, s0⟩ := p
+    cases s0 with
+    | val v =>
+      have : localItems ((k0, Slot.val v) :: r) = (k0, v) :: localItems r := by simp [localItems]
+      rw [this]; simpa using ih
+    | deleted =>
+      have : localItems ((k0, Slot.deleted) :: r) = localItems r := by simp [localItems]
+      rw [this]; exact List.Sublist.cons _ ih
+
+theorem nodup_iItems (σ : State) (f : Frame) (c : ClassId) (d : DescId) (hn : (f.map (·.1)).Nodup) :
+    ((iItems σ f c d).map (·.1)).Nodup := by
+  unfold iItems
+  rw [List.map_append]
+  refine List.nodup_append.2 ⟨hn.sublist (keys_localItems_sublist f), ?_, ?_⟩
+  · exact (nodup_tItems σ c d).sublist (List.Sublist.map _ (List.filter_sublist))
+  · intro a ha b hb e
+    subst e
+    have ha' : a ∈ f.map (·.1) := (keys_localItems_sublist f).subset ha
+    obtain ⟨kv, hkv, rfl⟩ := List.mem_map.1 hb
+    have := (List.mem_filter.1 hkv).2
+    have hnone : AList.get? f kv.1 = none := by
+      simpa [AList.hasKey] using this
+    exact ((get?_eq_none_iff f kv.1).1 hnone) ha'
+
+theorem itemsOf_iItems (σ : State) (i : InstId) (x : Inst) (f : Frame) (d : DescId)
+    (hx : σ.insts[i]? = some x) (hloc : x.loc = .storage f) (hd : σ.descOf x.cls = some d)
+    (hn : (f.map (·.1)).Nodup) : ItemsOf (visible σ (.inst i)) (iItems σ f x.cls d) := by
+  refine ⟨nodup_iItems σ f x.cls d hn, fun k v => ?_⟩
+  have hv : visible σ (.inst i) k = (iGet σ f x.cls d k).toOption := by simp [visible, hx, hloc, hd]
+  rw [hv, ← get?_iItems σ f x.cls d hn]
+  exact ⟨get?_of_mem_nodup _ k v (nodup_iItems σ f x.cls d hn), mem_of_get? _ k v⟩
+
+theorem mem_keys_iItems (σ : State) (f : Frame) (c : ClassId) (d : DescId) (hn : (f.map (·.1)).Nodup) (k : Key) :
+    k ∈ (iItems σ f c d).map (·.1) ↔ ((iGet σ f c d k).toOption).isSome := by
+  rw [← get?_iItems σ f c d hn]
+  have := get?_eq_none_iff (iItems σ f c d) k
+  cases h : AList.get? (iItems σ f c d) k <;> simp_all
+
+/-- results of the order-free methods through an instance view (`[]`, `get`, `in`, `pop`,
+    `setdefault`, `del`, `popitem`, …) are those of a Python dict holding the visible mapping -/
+theorem dict_result_inst (σ : State) (i : InstId) (x : Inst) (f : Frame) (d : DescId)
+    (hx : σ.insts[i]? = some x) (hloc : x.loc = .storage f) (hd : σ.descOf x.cls = some d)
+    (hn : (f.map (·.1)).Nodup) (o : Op) (r : Res)
+    (h : dictResult o (visible σ (.inst i)) = some r) : (step σ (.op (.inst i) o)).2 = r := by
+  have hvis : ∀ k, visible σ (.inst i) k = (iGet σ f x.cls d k).toOption := fun k => by
+    simp [visible, hx, hloc, hd]
+  have hmem := mem_keys_iItems σ f x.cls d hn
+  simp only [step, instOp, hx, hloc, hd]
+  cases o <;> simp only [dictResult, Option.some.injEq, reduceCtorEq] at h <;>
+    simp only [dictLikeRead, iReader, iWrite] <;> subst h
+  case getitem k =>
+    rcases except_cases (iGet σ f x.cls d k) with ⟨e, hg⟩ | ⟨y, hg⟩
+    · have := iGet_error σ f x.cls d k e hg; subst this; simp [hvis, hg, Except.toOption]
+    · simp [hvis, hg, Except.toOption]
+  case setitem k y => rfl
+  case delitem k =>
+    rcases except_cases (iGet σ f x.cls d k) with ⟨e, hg⟩ | ⟨y, hg⟩
+    · have := iGet_error σ f x.cls d k e hg; subst this; simp [hvis, hg, Except.toOption]
+    · simp [hvis, hg, Except.toOption]
+  case clear => rfl
+  case pop k dflt =>
+    rcases except_cases (iGet σ f x.cls d k) with ⟨e, hg⟩ | ⟨y, hg⟩
+    · have := iGet_error σ f x.cls d k e hg; subst this; cases dflt <;> simp [hvis, hg, Except.toOption]
+    · cases dflt <;> simp [hvis, hg, Except.toOption]
+  case setdefault k dv =>
+    rcases except_cases (iGet σ f x.cls d k) with ⟨e, hg⟩ | ⟨y, hg⟩ <;> simp [hvis, hg, Except.toOption]
+  case update ps => rfl
+  case get k dv =>
+    rcases except_cases (iGet σ f x.cls d k) with ⟨e, hg⟩ | ⟨y, hg⟩ <;> simp [hvis, hg, Except.toOption]
+  case contains k =>
+    simp only [hvis, hmem]
+    cases (iGet σ f x.cls d k).toOption <;> simp
+  case popitem => rfl
+
+/-- results of the iterating methods through an instance view (`items`, `keys`, `values`, `copy`,
+    `bool`, `==`, `!=`): computed on a listing with distinct keys of exactly the visible mapping -/
+theorem iter_result_inst (σ : State) (i : InstId) (x : Inst) (f : Frame) (d : DescId)
+    (hx : σ.insts[i]? = some x) (hloc : x.loc = .storage f) (hd : σ.descOf x.cls = some d)
+    (hn : (f.map (·.1)).Nodup) (o : Op) :
+    ∃ l, ItemsOf (visible σ (.inst i)) l ∧
+      ∀ r, iterResult l o = some r → (step σ (.op (.inst i) o)).2 = r := by
+  refine ⟨iItems σ f x.cls d, itemsOf_iItems σ i x f d hx hloc hd hn, fun r h => ?_⟩
+  have hof := ofPairs_of_nodup (iItems σ f x.cls d) (nodup_iItems σ f x.cls d hn)
+  simp only [step, instOp, hx, hloc, hd]
+  cases o <;> simp only [iterResult, Option.some.injEq, reduceCtorEq] at h <;>
+    simp only [dictLikeRead, iReader, hof] <;> exact h
+
+/-- local storage is a Python dict: its keys stay distinct under every writing method -/
+theorem iWrite_nodup (σ : State) (f : Frame) (c : ClassId) (d : DescId) (o : Op)
+    (hn : (f.map (·.1)).Nodup) : (((iWrite σ f c d o).1).map (·.1)).Nodup := by
+  have hfold : ∀ (ks : List Key) (g : Frame), (g.map (·.1)).Nodup →
+      ((ks.foldl (fun g k => AList.set g k Slot.deleted) g).map (·.1)).Nodup := by
+    intro ks
+    induction ks with
+    | nil => intro g hg; exact hg
+    | cons k r ih => intro g hg; exact ih _ (nodup_set g k _ hg)
+  cases o <;> simp only [iWrite] <;> first
+    | exact hn
+    | exact nodup_set _ _ _ hn
+    | exact nodup_update _ _ hn
+    | exact hfold _ [] (by simp)
+    | (split <;> first | exact hn | exact nodup_set _ _ _ hn)
+
 /-! ## the full statement, and where the code as it is falls short of it -/
 
 /-- **Full statement** (sentence 1 of the property over all histories): after any history from a
